@@ -77,7 +77,7 @@ impl Number {
                 // presumably because it is too large
                 Err(e) => return Err(format!("Failed to parse exponent: {}", e)),
             };
-            let res = BigInt::from(10u64).pow(exp.abs() as u32);
+            let res = BigInt::from(10u64).pow(exp.unsigned_abs());
             if exp < 0 {
                 BigRat::ratio(&BigInt::one(), &res)
             } else {
